@@ -106,15 +106,19 @@ def median_case(draw):
         width = draw(st.sampled_from([w for w in range(1, shape[0] + 1, 2)]))
     if mode == 'run2d':
         width = draw(st.sampled_from([w for w in range(1, min(shape) + 1, 2)]))
-    return dict(mode=mode, shape=shape, x=x, width=width, even=draw(st.booleans()), dtype=draw(st.sampled_from(['f8', 'f4'])))
+    return dict(mode=mode, shape=shape, x=x, width=width, even=draw(st.booleans()), dtype=draw(st.sampled_from(['f8', 'f4'])), readonly=draw(st.sampled_from([False, False, True])))
 
 
 def median_body(case):
     from pydl import median
     a = np.array(case['x'], dtype=case['dtype']).reshape(case['shape'])
+    keep = a.copy()
+    if case.get('readonly'):
+        a.setflags(write=False)        # data mapped read-only (np.frombuffer, a FITS memmap): the functions only have to read it
     mode = case['mode']
     if mode in ('whole', 'whole2d'):
         got = call(median, a, even=case['even'])
+        check(np.array_equal(a, keep), 'median:input-modified', lambda: dict(before=keep.tolist(), after=a.tolist()))
         s = np.sort(a.ravel().astype('f8'))
         m = len(s)
         if m % 2 == 1:
@@ -130,6 +134,7 @@ def median_body(case):
         return
     w = case['width']
     got = call(median, a, width=w)
+    check(np.array_equal(a, keep), 'median:input-modified', lambda: dict(before=keep.tolist(), after=a.tolist()))
     h = (w - 1) // 2
     ref = a.astype('f8').copy()
     if mode == 'run1d':
@@ -262,6 +267,14 @@ def rebin_body(case):
         check(ok, 'rebin:wrong-values', lambda: dict(shape=case['shape'], target=case['target'], sample=case['sample'], dtype=case['dtype'],
                                                      got=got.tolist(), want=want.tolist()))
         check(np.array_equal(a, keep), 'rebin:input-modified')
+    # two results alive at once (same target shape and dtype, different data): the first one must keep its values
+    first = np.array(got, copy=True)
+    b = (a[::-1].copy() if a.ndim == 1 else a[::-1, ...].copy())
+    b = (b.astype('f8') * 0.5 + 1).astype(a.dtype)
+    got2 = call(rebin, b, tuple(case['target']), sample=not case['sample'])
+    with judge('rebin-two-results'):
+        check(np.array_equal(np.asarray(got), first, equal_nan=True), 'rebin:earlier-result-changed-by-a-later-call', lambda: dict(shape=case['shape'], target=case['target']))
+        check(not np.shares_memory(np.asarray(got), np.asarray(got2)), 'rebin:results-share-memory')
 
 
 @st.composite
